@@ -81,13 +81,23 @@ CheckPower(v) ==
                             THEN Rec("checkpower", <<v>>, "ok", IF standby THEN 0 ELSE 255, 0, <<>>, StateNow(sect, wcache, standby))
                             ELSE Rec("checkpower", <<v>>, "CheckCondition", 1, 29, <<>>, StateNow(sect, wcache, standby)))
     /\ UNCHANGED <<sect, wcache, standby, exported>>
+\* a command the disk does not implement (IDENTIFY PACKET DEVICE, A1h, on a non-packet device) sent WITHOUT CK_COND:
+\* the device aborts it and the translation layer answers CHECK CONDITION, ABORTED COMMAND (Bh), with the registers
+\* in the sense data (ERROR = 04h ABRT).  The facade asks for raw sense for every ATA pass-through, whatever CK_COND
+\* says: over SG_IO the call returns and the caller finds the registers on the command, over iSCSI it raises
+Aborted(v) ==
+    /\ Room /\ v \in {12, 16}
+    /\ hist' = Append(hist, IF Tr = "sgio"
+                            THEN Rec("aborted", <<v>>, "ok", 4, 0, <<>>, StateNow(sect, wcache, standby))
+                            ELSE Rec("aborted", <<v>>, "CheckCondition", 11, 0, <<>>, StateNow(sect, wcache, standby)))
+    /\ UNCHANGED <<sect, wcache, standby, exported>>
 Export == /\ Len(hist) = MaxLen /\ ~exported
           /\ PrintT(<<"SATDISK", ToJson([tr |-> Tr, steps |-> hist])>>)
           /\ exported' = TRUE /\ UNCHANGED <<sect, wcache, standby, hist>>
 
 Next == \/ \E v \in {12, 16}, ext \in BOOLEAN, a \in Idx, n \in {1, 2}, x \in {1, 2} : Write(v, ext, a, n, x)
         \/ \E v \in {12, 16}, ext \in BOOLEAN, a \in Idx, n \in {1, 2} : Read(v, ext, a, n)
-        \/ \E v \in {12, 16} : Identify(v) \/ CheckPower(v)
+        \/ \E v \in {12, 16} : Identify(v) \/ CheckPower(v) \/ Aborted(v)
         \/ \E v \in {12, 16}, on \in BOOLEAN : SetCache(v, on) \/ Power(v, on)
         \/ \E v \in {12, 16}, ext \in BOOLEAN : Flush(v, ext)
         \/ Export
@@ -95,7 +105,7 @@ Spec == Init /\ [][Next]_vars
 \* a narrower caller (two-sector transfers at the addresses that need the upper LBA bytes, one of each other command)
 NextSmall == \/ \E vv \in Variants, a \in {2, 3, 4}, x \in {1, 2} : Write(vv[1], vv[2], a, 2, x)
              \/ \E vv \in Variants, a \in {2, 3, 4} : Read(vv[1], vv[2], a, 2)
-             \/ CheckPower(16) \/ Power(12, TRUE) \/ Power(16, FALSE) \/ SetCache(16, FALSE) \/ Identify(12)
+             \/ CheckPower(16) \/ Aborted(12) \/ Power(12, TRUE) \/ Power(16, FALSE) \/ SetCache(16, FALSE) \/ Identify(12)
              \/ Export
 SpecSmall == Init /\ [][NextSmall]_vars
 
